@@ -9,6 +9,7 @@ import (
 	"fmt"
 	"go/token"
 	"iter"
+	"reflect"
 	"sort"
 	"sync"
 )
@@ -112,6 +113,94 @@ func Map[M ~map[K]V, K comparable, V any](site string, m M) iter.Seq2[K, V] {
 				continue // deleted during iteration
 			}
 			if !yield(k, v) {
+				return
+			}
+		}
+	}
+}
+
+// ---------------------------------------------------------------- reflect map iteration
+
+func orderKeys(site string, keys []reflect.Value) []reflect.Value {
+	strs := make([]string, len(keys))
+	for i, k := range keys {
+		if k.CanInterface() {
+			strs[i] = fmt.Sprintf("%v", k.Interface())
+		} else {
+			strs[i] = k.String()
+		}
+	}
+	idx := make([]int, len(keys))
+	for i := range idx {
+		idx[i] = i
+	}
+	sort.SliceStable(idx, func(a, b int) bool { return strs[idx[a]] < strs[idx[b]] })
+	sorted := make([]reflect.Value, len(keys))
+	for i, j := range idx {
+		sorted[i] = keys[j]
+	}
+	mu.Lock()
+	p, ok := policy[site]
+	if !ok {
+		p = deflt
+	}
+	if len(keys) > touched[site] {
+		touched[site] = len(keys)
+	} else if _, seen := touched[site]; !seen {
+		touched[site] = len(keys)
+	}
+	mu.Unlock()
+	n := len(sorted)
+	out := make([]reflect.Value, 0, n)
+	switch p {
+	case 1:
+		for i := n - 1; i >= 0; i-- {
+			out = append(out, sorted[i])
+		}
+	case 2:
+		if n > 0 {
+			out = append(append(out, sorted[1:]...), sorted[0])
+		}
+	case 3:
+		if n > 0 {
+			out = append(append(out, sorted[n-1]), sorted[:n-1]...)
+		}
+	default:
+		out = sorted
+	}
+	return out
+}
+
+// MapKeys replaces reflect.Value.MapKeys.
+func MapKeys(site string, v reflect.Value) []reflect.Value { return orderKeys(site, v.MapKeys()) }
+
+// MapIter replaces *reflect.MapIter.
+type MapIter struct {
+	m    reflect.Value
+	keys []reflect.Value
+	i    int
+}
+
+// MapRange replaces reflect.Value.MapRange.
+func MapRange(site string, v reflect.Value) *MapIter {
+	return &MapIter{m: v, keys: orderKeys(site, v.MapKeys()), i: -1}
+}
+
+func (it *MapIter) Next() bool           { it.i++; return it.i < len(it.keys) }
+func (it *MapIter) Key() reflect.Value   { return it.keys[it.i] }
+func (it *MapIter) Value() reflect.Value { return it.m.MapIndex(it.keys[it.i]) }
+func (it *MapIter) Reset(v reflect.Value) {
+	it.m, it.keys, it.i = v, orderKeys("reset", v.MapKeys()), -1
+}
+
+// Seq2 replaces reflect.Value.Seq2 on maps.
+func Seq2(site string, v reflect.Value) iter.Seq2[reflect.Value, reflect.Value] {
+	if v.Kind() != reflect.Map {
+		return v.Seq2()
+	}
+	return func(yield func(reflect.Value, reflect.Value) bool) {
+		for _, k := range orderKeys(site, v.MapKeys()) {
+			if !yield(k, v.MapIndex(k)) {
 				return
 			}
 		}
